@@ -1048,8 +1048,7 @@ def section_cases():
 
 # ---- -l
 
-def segment_file(cls, le, machine, p_type, p_flags, e_type=2):
-    blob = b'/lib/ld-c18.so.1\0'
+def segment_file(cls, le, machine, p_type, p_flags, e_type=2, blob=b'/lib/ld-c18.so.1\0'):
     secs = [text_sec(), sec('.c18d', SHT_PROGBITS, SHF_ALLOC, addr=0xc18000, align=1, data=blob)]
     segs = [
         {'p_type': PT_LOAD, 'p_flags': 5, 'p_offset': ['sec_off', 1, 0], 'p_vaddr': 0x1000, 'p_paddr': 0x1000,
@@ -1091,6 +1090,12 @@ def segment_cases():
         m = EM['X86_64'] if cls == 64 else EM['I386']
         for fl in list(range(8)) + [8, 0x00100000, 0x0ff00000, 0x10000000, 0xf0000000, 0xffffffff, 0xfffffff8]:
             out.append(synth('-l', 'p_flags|c=%d|le=%d|0x%x' % (cls, le, fl), r'c18000', segment_file(cls, le, m, PT_LOAD, fl)))
+    # the interpreter path is the NUL-terminated string at the start of the segment, whatever else the extent holds behind the terminator
+    for cls, le in CELLS:
+        m = EM['X86_64'] if cls == 64 else EM['I386']
+        for k, blob in enumerate((b'/lib/ld.so\0nux-x86-64.so.2\0', b'/lib/ld-c18.so.1\0\0\0\0', b'/' + b'd' * 200 + b'/ld.so\0', b'a\0b\0c\0',
+                                  b'/lib/ld-c18.so.1\0\xff\xfe garbage')):
+            out.append(synth('-l', 'interp|content=%d' % k, r'c18000|nterpreter', segment_file(cls, le, m, 3, 4, blob=blob)))
     # count wording and numeric columns
     for cls in (32, 64):
         m = EM['X86_64'] if cls == 64 else EM['I386']
